@@ -80,7 +80,11 @@ int main(void)
 {
     for (int v = 0; v < NVAL; v++) one(v);
 #ifdef WITNESS
+#ifdef EXPECT_NONEMPTY
     if (n_nonempty >= 1) VWITNESS("a valuation with a non-empty execution space was counted");
+#else
+    VWITNESS("every valuation of this chunk has an empty execution space and was counted as 0 tasks");
+#endif
 #ifdef EXPECT_REMOTE
     if (n_remote >= 1) VWITNESS("some instance is placed on another rank and is not counted");
 #endif
